@@ -315,3 +315,239 @@ def translate():
     text = emit(parse_done(cpp), parse_init(cpp, hdr))
     vlib.write_if_changed(GEN_PATH, text)
     return text
+
+
+# ---------------------------------------------------------------------------------------------------------
+# generator
+
+DBL_MAX = 1.7976931348623157e308
+EPS_LIST = [1e-6, 2.0 ** -10]
+
+
+def _corpus():
+    cp = os.path.join(vlib.VERIF, "corpus", "C11", "ops.txt")
+    if os.path.exists(cp):
+        return [l.strip() for l in open(cp) if l.strip() and not l.startswith("#")]
+    return []
+
+
+def _words_valid(L):
+    """validation symbols 0..4 at every position x the training error crossing eps at one position (or nowhere)"""
+    for vs in itertools.product("01234", repeat=L):
+        yield "".join(vs)
+        for p in range(L):
+            yield "".join(vs[:p]) + str(int(vs[p]) + 5) + "".join(vs[p + 1:])
+
+
+def _words_novalid(L):
+    """no validation samples: the validation symbol is irrelevant (mean over no samples = 0); all 2^L training patterns"""
+    for bs in itertools.product("27", repeat=L):
+        yield "".join(bs)
+
+
+def gen_es(rng, tier):
+    ops = []
+    maxL = 6 if tier == "quick" else 7
+    k = 0
+    for L in range(0, maxL + 1):
+        for w in (_words_valid(L) if L > 0 else ["-"]):
+            for pat in (1, 2, 3, 4):
+                k += 1
+                eps = f2h(EPS_LIST[k % 2])
+                ops.append(f"es a {eps} {pat} {1 + k % 2} {1 + (k // 2) % 2} {w}")
+        for w in (_words_novalid(L) if L > 0 else ["-"]):
+            for pat in (1, 2, 3, 4):
+                k += 1
+                ops.append(f"es a {f2h(EPS_LIST[k % 2])} {pat} {1 + k % 2} 0 {w}")
+    if tier == "thorough":
+        # a seeded fifth of the length-8 layer
+        syms = "01234"
+        for vs in itertools.product(syms, repeat=8):
+            if rng.below(5) != 0:
+                continue
+            base = "".join(vs)
+            for p in range(-1, 8):
+                w = base if p < 0 else base[:p] + str(int(base[p]) + 5) + base[p + 1:]
+                for pat in (1, 2, 3, 4):
+                    k += 1
+                    ops.append(f"es a {f2h(EPS_LIST[k % 2])} {pat} 1 1 {w}")
+    # random longer histories: arbitrary values around the stored optimum, arbitrary learner counts
+    for _ in range(3000 if tier == "quick" else 30000):
+        eps = rng.choice([1e-12, 1e-6, 1e-3, 0.25, 1.0, 2.0 ** -10, rng.uniform(1e-9, 0.5)])
+        pat = rng.choice([0, 1, 1, 2, 3, 4, 5, 10, rng.range(1, 30)])
+        ntrain = rng.choice([1, 2, 4])
+        nvalid = rng.choice([0, 1, 1, 2, 4])
+        L = rng.range(1, 40)
+        mode = rng.below(4)
+        calls = []
+        best = rng.uniform(0.5, 2.0)
+        n = 0
+        for j in range(L):
+            r = rng.below(10)
+            if r < 3:
+                v = best - eps * rng.choice([0.5, 1.0, 1.0, 2.0, 1.0 + 1e-9, 1.0 - 1e-9, 1.5])
+            elif r < 5:
+                v = best + eps * rng.choice([0.0, 0.5, 1.0, 3.0])
+            elif r < 6:
+                v = best
+            else:
+                v = rng.uniform(0.0, 2.0)
+            if rng.below(200) == 0:
+                v = rng.choice([float("inf"), DBL_MAX, float("nan"), -1.0])
+            if v == v and v < best:
+                best = v if rng.below(2) else best
+            t = rng.choice([eps, eps * 0.5, eps * (1 + 1e-12), eps * 2, 1.0, rng.uniform(0, 3 * eps)]) if rng.below(12) == 0 else rng.uniform(eps, 1.0) + eps
+            if mode == 0:
+                n = j
+            elif mode == 1:
+                n = n + rng.below(3)
+            elif mode == 2:
+                n = rng.below(12)
+            else:
+                n = j + 1
+            calls.append(f"{f2h(t)} {f2h(v)} {n}")
+        ops.append(f"es h {f2h(eps)} {pat} {ntrain} {nvalid} {L} " + " ".join(calls))
+    return ops
+
+
+def gen(rng, tier):
+    return _corpus() + gen_es(rng, tier)
+
+
+# ---------------------------------------------------------------------------------------------------------
+# the property oracle for histories, coded from the statement: the monitor stops exactly when the training error is
+# below epsilon or no validation improvement larger than epsilon was accepted in the last `patience` rounds, and reports
+# the round of the last accepted improvement with that round's values
+
+def decode_history(op):
+    """-> (eps, patience, ntrain, nvalid, [(train, valid, learners)])"""
+    t = op.split()
+    eps = h2f(t[2]); pat = int(t[3]); ntrain = int(t[4]); nvalid = int(t[5])
+    calls = []
+    if t[1] == "a":
+        word = "" if t[6] == "-" else t[6]
+        alphabet = [0.0, eps / 2.0, eps, eps * 2.0, 1.0]
+        for k, ch in enumerate(word):
+            d = ord(ch) - 48
+            calls.append((eps / 2.0 if d >= 5 else eps, alphabet[d % 5], k))
+    else:
+        L = int(t[6])
+        for k in range(L):
+            calls.append((h2f(t[7 + 3 * k]), h2f(t[8 + 3 * k]), int(t[9 + 3 * k])))
+    return eps, pat, ntrain, nvalid, calls
+
+
+def expected_history(eps, pat, nvalid, calls):
+    """answers, reported round / value / index of the reported call (0 = none yet), and whether an accepted and a
+    rejected validation improvement occurred"""
+    rep_round, rep_value, rep_call = 0, DBL_MAX, 0      # nothing accepted yet: round 0, value DBL_MAX
+    answers = []
+    seen_acc = seen_rej = False
+    for k, (train, valid, learners) in enumerate(calls):
+        if nvalid == 0:
+            valid = 0.0                                   # the mean error over no samples
+        small_train = train < eps
+        improvement = valid < rep_value - eps             # larger than epsilon w.r.t. the last accepted one
+        accepted = small_train or improvement or nvalid == 0
+        if nvalid > 0 and not small_train and k > 0:
+            if improvement:
+                seen_acc = True
+            elif valid < rep_value:
+                seen_rej = True
+        if accepted:
+            rep_round, rep_value, rep_call = learners, valid, k + 1
+        rounds_since = learners - rep_round
+        answers.append(small_train or (not accepted and rounds_since >= pat))
+    return answers, rep_round, rep_value, rep_call, (seen_acc and seen_rej)
+
+
+def oracle_es(op, res):
+    eps, pat, ntrain, nvalid, calls = decode_history(op)
+    answers, rnd, val, call, _ = expected_history(eps, pat, nvalid, calls)
+    r = res.split()
+    if r[0] != "ok":
+        return f"implementation did not answer ok: {res[:80]}"
+    bits = "" if r[1] == "-" else r[1]
+    want = "".join("1" if a else "0" for a in answers)
+    if bits != want:
+        k = next((i for i in range(min(len(bits), len(want))) if bits[i] != want[i]), min(len(bits), len(want)))
+        return f"done() answers {bits} but the statement requires {want} (first difference at call {k})"
+    if int(r[2]) != rnd:
+        return f"round() = {r[2]}, the last accepted improvement was made with {rnd} learners"
+    got_val = h2f(r[3])
+    if not (got_val == val or (got_val != got_val and val != val)):
+        return f"value() = {got_val!r}, the last accepted validation error is {val!r}"
+    if int(r[4]) != call:
+        return f"values() is the tensor of call {r[4]}, the last accepted call is {call}"
+    n = int(r[5])
+    row = [h2f(x) for x in r[6:6 + n]]
+    if call == 0:
+        exp = [0.0] * (ntrain + nvalid)
+    else:
+        exp = [calls[call - 1][0]] * ntrain + [calls[call - 1][1]] * nvalid
+    same = len(row) == len(exp) and all(a == b or (a != a and b != b) for a, b in zip(row, exp))
+    if not same:
+        return f"values() holds the errors {row}, those of the last accepted call are {exp}"
+    return None
+
+
+def oracle(op, res):
+    fam = op.split(None, 1)[0]
+    if fam == "es":
+        return oracle_es(op, res)
+    if fam == "fit":
+        return oracle_fit(op, res)
+    return f"unknown family {fam}"
+
+
+def oracle_fit(op, res):
+    return None
+
+
+def model_skip(op):
+    return op.startswith("fit ")
+
+
+def nontrivial(op):
+    if op.startswith("es "):
+        eps, pat, ntrain, nvalid, calls = decode_history(op)
+        return expected_history(eps, pat, nvalid, calls)[4]
+    return True
+
+
+def distribution(ops):
+    d = {}
+    for op in ops:
+        t = op.split()
+        if t[0] == "es":
+            L = (0 if t[6] == "-" else len(t[6])) if t[1] == "a" else int(t[6])
+            key = f"es/{t[1]}/{'valid' if t[5] != '0' else 'novalid'}/len{L if L <= 8 else '9+'}"
+        else:
+            key = f"fit/{t[1]}"
+        d[key] = d.get(key, 0) + 1
+    return d
+
+
+def classify(op, kind, detail):
+    t = op.split()
+    if not t:
+        return None
+    if t[0] == "es":
+        return "early_stopping_t::done"
+    return f"fit/{t[1]}" if len(t) > 1 else "fit"
+
+
+def shrink_candidates(op):
+    t = op.split()
+    if t[0] != "es":
+        return
+    if t[1] == "a":
+        w = "" if t[6] == "-" else t[6]
+        for i in range(len(w)):                       # drop one call
+            nw = w[:i] + w[i + 1:]
+            yield " ".join(t[:6] + [nw or "-"])
+    else:
+        L = int(t[6]); calls = [t[7 + 3 * k:10 + 3 * k] for k in range(L)]
+        for i in range(L):
+            rest = calls[:i] + calls[i + 1:]
+            yield " ".join(t[:6] + [str(L - 1)] + [x for c in rest for x in c])
